@@ -5,6 +5,7 @@ CONSTANTS
   MaxReplies = 3
   LeakOnSendError = FALSE
   MatchCreation = FALSE
+  SeqCallers = FALSE
   RemoveOnTimeout = TRUE
 CHECK_DEADLOCK FALSE
 INVARIANT OwnReplyOnly
